@@ -2079,6 +2079,8 @@ function RecordType:update_fields()
       offset = align_forward(offset, aligned)
       align = math.max(aligned, align)
     end
+  elseif self.aligned then -- no fields, but the C struct still gets the alignment attribute
+    align = math.max(self.aligned, align)
   end
   if not unknown then
     if offset == 0 then
